@@ -23,6 +23,11 @@ AREAS = {
     'W': 'csep/core/forecasts.py and csep/utils/readers.py (gridded and catalog forecasts, forecast file loaders, catalog readers)',
     'X': 'csep/core/poisson_evaluations.py, csep/core/binomial_evaluations.py, csep/core/brier_evaluations.py and csep/utils/stats.py',
     'Y': 'csep/core/catalog_evaluations.py, csep/utils/time_utils.py, csep/models.py, csep/core/repositories.py and csep/__init__.py',
+    'Z1': 'csep/utils/calc.py, csep/utils/stats.py, csep/utils/time_utils.py (pure numeric helpers) - prefer vectorisation / de-vectorisation that is exactly equivalent, early returns, and renaming',
+    'Z2': 'csep/core/regions.py (both region classes and the module-level helpers) - prefer moving code between methods, properties, class attributes and static methods',
+    'Z3': 'csep/core/catalogs.py and csep/core/forecasts.py - prefer changes of control flow: guard clauses, merged / split branches, loops versus comprehensions, try/except restructured without changing what is protected',
+    'Z4': 'csep/core/poisson_evaluations.py, csep/core/binomial_evaluations.py, csep/core/brier_evaluations.py, csep/core/catalog_evaluations.py - prefer sharing code between the three families of tests through new private helpers in the same module',
+    'Z5': 'csep/utils/readers.py, csep/models.py, csep/core/repositories.py and csep/__init__.py - prefer table-driven rewrites, helper extraction and modern idioms (f-strings, pathlib-free), keeping every exception and message',
     'J': 'csep/core/poisson_evaluations.py, csep/core/binomial_evaluations.py, csep/core/brier_evaluations.py, csep/core/catalog_evaluations.py and csep/models.py (test kernels, simulation loops, result construction)',
 }
 print(f'''You are working in a scratch git worktree of the pyCSEP repository at {wt} (a detached checkout). Work ONLY inside {wt}: do not touch /repo, /verif or any other directory, do NOT use `git stash`, never commit anything.
